@@ -32,7 +32,7 @@ type c17reg struct {
 
 func c17opts(i int) (opts []slog.RegOpt, r c17reg) {
 	r.treat = slog.MaxLevel
-	full := [6]string{"", "N", "NT", "NTC", "NOTC", "NOTIC"}
+	full := [6]string{"", "N", " T", "NTC", " OK ", "  A  "} // correctly sized tags, some with leading / trailing blanks (like the built-in " OK ")
 	partial := [6]string{"", "Q", "", "QQQ", "", ""}
 	switch i {
 	case 1:
